@@ -330,7 +330,7 @@ def generate(ctx):
     # exhaustive float glue (strided in quick so that the budget holds)
     pairs = [(new, old) for old in range(2, top + 1) for new in range(1, old)]
     if not ctx.thorough():
-        pairs = [p for p in pairs if p[1] <= 30] + rng.sample(pairs, 300)
+        pairs = [p for p in pairs if p[1] <= 30] + rng.sample(pairs, 200)
     for new, old in pairs:
         yield "tofewer_bounds", {"new": new, "old": old}
     yield "tofewer_bounds", {"new": 0, "old": 3}
@@ -342,17 +342,17 @@ def generate(ctx):
     for _ in range(ctx.n(60, 400)):
         old = rng.randint(1, 12)
         yield "nsplits", {"new": rng.randint(old, 4 * old + 3), "old": old}
-    for _ in range(ctx.n(300, 3000)):
+    for _ in range(ctx.n(200, 3000)):
         keys = [rng.randint(0, 9) for _ in range(rng.randint(1, 8))]
         if rng.random() < 0.6:
             keys.sort()
         lo = rng.randint(0, 9)
         yield "boundary_slice", {"keys": keys, "lo": lo, "hi": rng.randint(lo, 10), "rb": rng.random() < 0.5}
-    for _ in range(ctx.n(1000, 15000)):
+    for _ in range(ctx.n(700, 15000)):
         a = U.rand_divisions(rng, rng.randint(1, 6), 0, rng.choice([6, 12, 30]))
         force = rng.random() < 0.35
         yield "div_layer", {"a": a, "b": _rand_new_divs(rng, a, force), "force": force}
-    for _ in range(ctx.n(200, 2600)):
+    for _ in range(ctx.n(150, 2600)):
         nparts = rng.randint(1, 6)
         if rng.random() < 0.75:
             divs = U.rand_divisions(rng, nparts, 0, rng.choice([8, 14, 30]))
